@@ -67,6 +67,17 @@ def _neighbour(cell0, f0, f1, rng):
             a2, b2 = off_facet_neighbour(a, fv0), off_facet_neighbour(b, fv1)
             v1[b2] = cell0.v[a] + 0.8 * (cell0.v[a] - cell0.v[a2]) + 0.04 * rng.uniform(-1, 1, cell0.gdim)
     assert not np.isnan(v1).any()
+    if cell0.v.shape[0] > nv:
+        # degree-2 triangle geometry: vertex nodes first, then one node per edge (basix edge order). The node of the shared
+        # edge is cell0's; the others are the (perturbed) midpoints of cell1's own vertices
+        if tdim != 2 or cell0.v.shape[0] != nv + len(edges):
+            raise R.Unsupported("interior facets of this higher-order geometry")
+        full = np.zeros((nv + len(edges), cell0.gdim))
+        full[:nv] = v1
+        for e, (a, b) in enumerate(edges):
+            full[nv + e] = 0.5 * (v1[a] + v1[b]) + 0.03 * rng.uniform(-1, 1, cell0.gdim)
+        full[nv + f1] = cell0.v[nv + f0]
+        return full
     return v1
 
 
@@ -234,7 +245,7 @@ def _kernel(kn, fd2_cache, seed, run_kernel, ufl):
     elif it == "ridge":
         configs = [(e, None, e % 2 == 1) for e in range(C.cell_entities(cellname, tdim - 2))]
     else:
-        if not degree1:
+        if not degree1 and not (cellname == "triangle" and cel.dim // dom.geometric_dimension == 6):
             raise R.Unsupported("interior facets of higher-order geometry")
         configs = [(f0, f1, (f0 + f1) % 2 == 1) for f0 in range(nfac) for f1 in range(nfac)]
         if len(configs) > 6:
